@@ -6,5 +6,6 @@ open IrVerif.SymExpr
 #print axioms IrVerif.SymExpr.C16_fast_path
 #print axioms IrVerif.SymExpr.C16_tokenize_render
 #print axioms IrVerif.SymExpr.C16_partial
+#print axioms IrVerif.SymExpr.C16_eval_free
 #print axioms IrVerif.SymExpr.C16_int_ops
 #print axioms IrVerif.SymExpr.C16_int_eval
